@@ -75,6 +75,11 @@ func (dec *Decoder) Decode(v any) error {
 	if dec.err != nil {
 		return dec.err
 	}
+	if k, n := dec.dec.StackIndex(dec.dec.StackDepth()); k == '{' && n%2 == 0 {
+		// Historically, v1 refused to decode a value in place of an object name
+		// after a Token call had descended into a JSON object.
+		return &SyntaxError{msg: "not at beginning of value", Offset: dec.InputOffset()}
+	}
 	b, err := dec.dec.ReadValue()
 	if err != nil {
 		dec.err = transformSyntacticError(err)
@@ -277,7 +282,13 @@ func (dec *Decoder) More() bool {
 				// This is only possible if jsontext violates its documentation.
 				err = errors.New("json: successful read after failed peek")
 			}
+			// Historically, v1 reported false if the input ended here,
+			// even within an unfinished JSON array or object.
+			atEnd := errors.Is(err, io.ErrUnexpectedEOF) && len(bytes.TrimLeft(dec.dec.UnreadBuffer(), " \n\r\t")) == 0
 			dec.err = transformSyntacticError(err)
+			if atEnd {
+				return false
+			}
 		}
 		return dec.err != io.EOF
 	}
